@@ -93,7 +93,7 @@ def run_tlc(module, cfg=None, workers=None, timeout=600, env=None,
     cfg = cfg or (module + '.cfg')
     if workers is None:
         workers = NCPU
-    cmd = ['java', '-XX:+UseParallelGC', '-Xmx' + heap]
+    cmd = ['java', '-XX:+UseParallelGC', '-Xmx' + heap, '-Xss256m']
     if dfs:
         cmd.append('-Dtlc2.tool.queue.IStateQueue=StateDeque')
     cmd += ['-cp', TLA_CP, 'tlc2.TLC', '-config', cfg,
